@@ -260,15 +260,18 @@ def mk_at(s, i):
             return s[1]
         if t in ('tobe', 'tole'):
             return byte_of(s, k)
-        if t == 'concat':
-            off = 0
-            for p in s[1]:
-                n = seqlen(p)
-                if n[0] != 'int':
-                    break
-                if k < off + n[1]:
-                    return mk_at(p, I(k - off))
-                off += n[1]
+    if t == 'concat':
+        off = I(0)
+        for p in s[1]:
+            n = seqlen(p)
+            past = sub(i, add(off, n))
+            if past[0] == 'int' and past[1] >= 0:
+                off = add(off, n)
+                continue
+            d = sub(i, off)
+            if d[0] == 'int' and d[1] >= 0 and n[0] == 'int' and d[1] < n[1]:
+                return mk_at(p, d)
+            break
     return ('at', s, i)
 
 
@@ -303,23 +306,61 @@ def mk_slice(s, lo, hi):
         return ('bytes', s[1][lo[1]:hi[1]])
     if s[0] == 'arr' and lo[0] == 'int' and hi[0] == 'int' and 0 <= lo[1] <= hi[1] <= len(s[1]):
         return ('arr', s[1][lo[1]:hi[1]])
-    if s[0] == 'concat' and lo[0] == 'int' and hi[0] == 'int':
-        # cut along part boundaries when all lengths up to hi are constant
-        parts, off, ok = [], 0, True
-        for p in s[1]:
-            n = seqlen(p)
-            if n[0] != 'int':
-                ok = off >= hi[1]
-                break
-            a, b = max(lo[1], off), min(hi[1], off + n[1])
-            if a < b:
-                parts.append(mk_slice(p, I(a - off), I(b - off)))
-            off += n[1]
-            if off >= hi[1]:
-                break
-        if ok and off >= hi[1]:
-            return mk_concat(parts)
+    if s[0] == 'concat':
+        r = _slice_concat(s, lo, hi, full_len)
+        if r is not None:
+            return r
     return ('slice', s, lo, hi)
+
+
+def nonneg(t):
+    """provably >= 0 from its shape: non-negative constant plus positive multiples of lengths"""
+    c0, m = to_lin(t)
+    return c0 >= 0 and all(k > 0 and a[0] == 'len' for a, k in m.items())
+
+
+def _slice_concat(s, lo, hi, full_len):
+    """slice of a concatenation, by walking the parts with (possibly symbolic) running offsets"""
+    parts = list(s[1])
+    off = I(0)
+    i = 0
+    while i < len(parts):
+        n = seqlen(parts[i])
+        past = sub(lo, add(off, n))
+        if past[0] == 'int' and past[1] >= 0:
+            off = add(off, n)
+            i += 1
+            continue
+        break
+    cut = sub(lo, off)
+    if cut[0] != 'int' or cut[1] < 0:
+        return None
+    rest = parts[i:]
+    if not rest:
+        return ('bytes', b'') if (hi == full_len or hi == lo) and cut[1] == 0 else None
+    res = []
+    pos = off
+    for j, p in enumerate(rest):
+        n = seqlen(p)
+        start = cut if j == 0 else I(0)
+        end_here = sub(hi, pos)            # hi relative to this part
+        after = sub(hi, add(pos, n))
+        if after == I(0):
+            res.append(mk_slice(p, start, n) if start != I(0) else p)
+            return mk_concat(res)
+        if nonneg(after):
+            res.append(mk_slice(p, start, n) if start != I(0) else p)
+            pos = add(pos, n)
+            continue
+        if end_here[0] == 'int' and n[0] == 'int' and 0 <= end_here[1] <= n[1]:
+            if end_here[1] > start[1]:
+                res.append(mk_slice(p, start, end_here))
+            return mk_concat(res)
+        if end_here[0] == 'int' and end_here[1] >= 0 and p[0] == 'slice':
+            res.append(mk_slice(p, start, end_here))
+            return mk_concat(res)
+        return None
+    return None
 
 
 def flat_parts(parts):
@@ -542,8 +583,8 @@ def short(t, depth=0):
         return o + ', '.join(short(x) for x in t[1]) + c
     if k == 'repeat': return '[%s; %s]' % (short(t[1]), short(t[2]))
     if k == 'len': return 'len(%s)' % short(t[1])
-    if k == 'at': return '%s[%s]' % (short(t[1]), short(t[2]))
-    if k == 'slice': return '%s[%s..%s]' % (short(t[1]), short(t[2]), short(t[3]))
+    if k == 'at': return ('(%s)[%s]' if t[1][0] == 'concat' else '%s[%s]') % (short(t[1]), short(t[2]))
+    if k == 'slice': return ('(%s)[%s..%s]' if t[1][0] == 'concat' else '%s[%s..%s]') % (short(t[1]), short(t[2]), short(t[3]))
     if k == 'concat': return ' ++ '.join(short(x) for x in t[1])
     if k in ('be', 'le'): return '%s(%s)' % (k, ', '.join(short(x) for x in t[1]))
     if k in ('tobe', 'tole'): return '%s%d(%s)' % (k, t[1] * 8, short(t[2]))
@@ -628,3 +669,67 @@ def has_opaque(t):
 
 def mentions(t, what):
     return any(x == what for x in subterms(t))
+
+
+def rebuild(t, sub_):
+    """re-normalise t bottom-up through the smart constructors, replacing any subterm found in dict sub_"""
+    memo = {}
+
+    def go(x):
+        if x in memo:
+            return memo[x]
+        if x in sub_:
+            r = sub_[x]
+            memo[x] = r
+            return r
+        k = x[0]
+        if k == 'lin':
+            r = ('int', x[1])
+            for a, c in x[2]:
+                r = add(r, mulc(go(a), c))
+        elif k == 'len':
+            r = mk_len(go(x[1]))
+        elif k == 'at':
+            r = mk_at(go(x[1]), go(x[2]))
+        elif k == 'slice':
+            r = mk_slice(go(x[1]), go(x[2]), go(x[3]))
+        elif k == 'concat':
+            r = mk_concat([go(p) for p in x[1]])
+        elif k == 'be':
+            r = mk_be([go(p) for p in x[1]])
+        elif k == 'le':
+            r = mk_le([go(p) for p in x[1]])
+        elif k in ('tobe', 'tole'):
+            r = mk_tobytes(k, x[1], go(x[2]))
+        elif k in ('band', 'bor', 'bxor'):
+            r = bitop(k, go(x[1]), go(x[2]))
+        elif k == 'ge0':
+            r = ge0(go(x[1]))
+        elif k == 'eq0':
+            r = eq0(go(x[1]))
+        elif k == 'not':
+            r = bnot(go(x[1]))
+        elif k == 'and':
+            r = band_bool(go(x[1]), go(x[2]))
+        elif k == 'or':
+            r = bor_bool(go(x[1]), go(x[2]))
+        elif k == 'eq':
+            r = eq(go(x[1]), go(x[2]))
+        else:
+            r = map_children(x, go)
+        memo[x] = r
+        return r
+    return go(t)
+
+
+def pinned(pc):
+    """atoms that the conjunction pc pins to a constant through a single-atom equality  c0 + k*atom == 0"""
+    out = {}
+    for a in pc:
+        if a[0] == 'eq0':
+            c0, m = to_lin(a[1])
+            if len(m) == 1:
+                (atom, k), = m.items()
+                if c0 % k == 0:
+                    out[atom] = I(-c0 // k)
+    return out
